@@ -332,7 +332,7 @@ def rw_sets(ci, mname):
         for w in o.state.writes:
             if w.path == "self" and w.kind == "attr":
                 W.setdefault(w.attr, set()).add("const-true" if repr(w.value) == "K(True)" else "value")
-            elif w.path.startswith("self.") and not w.owned:
+            elif w.path.startswith("self."):
                 W.setdefault(w.path.split(".")[1].split("[")[0], set()).add(w.kind)
     R = {n for (p, n) in run.ex.reads_global if p == "self"}
     return W, R, None
@@ -362,7 +362,21 @@ def check_commute(cq):
                           reason=f"slots without a clause: {unknown}" if unknown else "",
                           witness={"family": "call", "oracle": "commute", "args": [name, "", "", []]}))
     pending = []        # Bernstein's condition fails: decided by a bounded witness search on the real code
-    clause = {m: {CLAUSE[a] for a in W if a in CLAUSE} for m, (W, R) in info.items()}
+    from contracts.spec.clauses import METHOD_CLAUSE
+    clause = {m: set(METHOD_CLAUSE.get(m, {CLAUSE[a] for a in W if a in CLAUSE})) for m, (W, R) in info.items()}
+    # a method writes only slots of the clause(s) it is about (and auxiliary bookkeeping)
+    for m, (W, R) in sorted(info.items()):
+        if m not in METHOD_CLAUSE:
+            continue
+        foreign = sorted(a for a in W if a in CLAUSE and CLAUSE[a] not in METHOD_CLAUSE[m])
+        obs.append(Obligation(PROP, f"{name}|commute/own-clause|{m}", "commute/own-clause", f"{name}.{m}",
+                              REFUTED if foreign else PROVED,
+                              detail=f"{m}() is about {sorted(METHOD_CLAUSE[m])} and writes {sorted(W)}",
+                              reason=f"{m}() also writes {foreign}, slots of other clauses: calls addressing those "
+                                     f"clauses do not commute with it" if foreign else "",
+                              witness={"family": "call", "oracle": "commute",
+                                       "args": [name, m, foreign[0] if foreign else "", sorted(
+                                           w for w in info if w != m and foreign and foreign[0] in info[w][0])]}))
     different = lambda a, b: a != b and not (clause[a] & clause[b])
     for m, (W, R) in sorted(info.items()):
         for x in sorted(R):
